@@ -14,7 +14,8 @@ Output: `<base> <after ref 1> ... N <normalize()> <normalize() twice> <normalize
 `T<to_text()>` and a URL without a host as `C<scheme>|<user>|<password>|<port>|<path>|<query>|<fragment>`
 (how `to_text()` writes an empty authority belongs to property C06 and is not compared here).
     parse <hex text> the Appendix B components of a reference text (scheme,authority,path,query,fragment; hex, N =
-                    undefined) and, for a text without scheme and authority, the object `URL(text)` (as `C...`)
+                    undefined) and, for a text without scheme and authority, the object `URL(text)`: `P<segments> Q<pairs> F<fragment>`
+                    (decoded path segments joined by `/`, query items `key[=value]` joined by `&`, all hex)
     tables          prints the generated scheme tables and the generated `navigate` version flag back (checked
                     against the live module)
 -/
@@ -89,7 +90,14 @@ def handle (line : String) : String :=
       let r := rfcParse t.toList
       let o (x : Option Str) : String := match x with | none => "N" | some v => stringToHex (String.ofList v)
       let comps := ",".intercalate [o r.scheme, o r.authority, stringToHex (String.ofList r.path), o r.query, o r.fragment]
-      if r.scheme.isNone && r.authority.isNone then comps ++ " " ++ showU (URL.ofText t.toList) else comps ++ " -"
+      if r.scheme.isNone && r.authority.isNone then
+        let u := URL.ofText t.toList
+        let hx (x : Str) : String := stringToHex (String.ofList x)
+        let raw := "P" ++ "/".intercalate (u.parts.map hx) ++
+          " Q" ++ "&".intercalate (u.query.map fun p => hx p.1 ++ (match p.2 with | none => "" | some v => "=" ++ hx v)) ++
+          " F" ++ hx u.fragment
+        comps ++ " " ++ raw
+      else comps ++ " -"
     | none => "bad-op"
   | "nav" :: b :: refs =>
     match parseURL? b, parseAll? refs with
